@@ -278,8 +278,9 @@ pub fn run(ctx: &mut RunCtx) -> Result<(), Violation> {
         if zh != pow_u64(z, n as u64) - Fr::one() {
             return Err(Violation::new("I-definition", "vanishing polynomial evaluation != z^n - 1"));
         }
-        if k >= 3 {
-            let deg = (n / 8) as u64;
+        if k >= 1 {
+            // any degree below the domain size, power of two or not (the prover key uses n on the 8n domain)
+            let deg = if w.chance(1, 2) && k >= 3 { (n / 8) as u64 } else { 1 + w.below(n as u64 - 1) };
             let vc = kernels::vanishing_over_coset(n, deg).map_err(|e| Violation::new("I-definition", format!("{:?}", e)))?;
             for &i in idx.iter().take(8) {
                 let x = g * pow_u64(omega, i as u64);
